@@ -171,7 +171,7 @@ def correspond_incon(ctx, exe, jobs):
         new = t2incon()
         try:
             if case.get('explicit'):
-                m, cm = O.explicit_maps(p.src, p.dspec, ctx.repo)
+                m, cm = O.explicit_maps(p.src, p.dst)
                 new.transfer_from(inc, p.src, p.dst, m, cm)
                 mf = ['m', G.show_dict(m), G.show_dict(cm)]
             else:
@@ -182,7 +182,7 @@ def correspond_incon(ctx, exe, jobs):
             impl.append(('raise', type(e).__name__))
             mf = ['-', '', ''] if not case.get('explicit') else None
             if mf is None:
-                m, cm = O.explicit_maps(p.src, p.dspec, ctx.repo); mf = ['m', G.show_dict(m), G.show_dict(cm)]
+                m, cm = O.explicit_maps(p.src, p.dst); mf = ['m', G.show_dict(m), G.show_dict(cm)]
         lines.append('\t'.join(['it'] + mf + s + d + [enc_incon(inc)]))
     out = vf.run_driver(exe, lines)
     kinds = {}
@@ -247,6 +247,7 @@ def correspond_generators(ctx, exe, jobs):
     for p, case in jobs:
         dat, top, bot = O.make_source_data(p.src, case['gseed'], conforming_names=bool(case.get('rename')))
         new = t2data(); new.grid = t2grid().fromgeo(p.dst)
+        encg = ','.join(enc_gen(g) for g in dat.generatorlist)
         try:
             new.transfer_generators_from(dat, p.src, p.dst, top, bot, rename=bool(case.get('rename')),
                                          preserve_totals=bool(case.get('preserve')))
@@ -260,7 +261,7 @@ def correspond_generators(ctx, exe, jobs):
                                                 ','.join(vf.hexs(x) for x in incols),
                                                 ','.join('%s=%s' % (vf.hexs(b.name), G.qstr(b.volume)) for b in dat.grid.blocklist),
                                                 ','.join('%s=%s' % (vf.hexs(b.name), G.qstr(b.volume)) for b in new.grid.blocklist),
-                                                ','.join(enc_gen(g) for g in dat.generatorlist)]))
+                                                encg]))
         used.append((p, case))
     out = vf.run_driver(exe, lines) if lines else []
     res = {}
@@ -299,9 +300,7 @@ def oracle(ctx, pairs, seed_base=0):
                 O.check_incon(ctx, dict(case, explicit=True), p.src, p.dst, ctx.repo)
         if p.src.num_blocks <= 4000:
             case = {'kind': 'generators', 'geo': p.sspec, 'gseed': seed_base + i, 'rename': bool(i & 1), 'preserve': bool(i & 2)}
-            try: geo2 = G.build_geo(p.sspec, ctx.repo)
-            except Exception: geo2 = None
-            if geo2 is not None: O.check_generators_identity(ctx, case, p.src, geo2)
+            O.check_generators_identity(ctx, case, p.src, O.identical_copy(p.sspec, p.src, ctx.repo))
     ctx.oracle_cases('block-mapping', len(pairs), families=fam, atmosphere_source_to_target=atm)
     ctx.oracle_cases('self-mapping-identity', len(pairs))
     ctx.oracle_cases('incon-transfer', len(pairs))
@@ -343,6 +342,7 @@ def run(ctx):
         for lo in range(0, len(pairs), 200):
             chunk = pairs[lo:lo + 200]
             correspond_mapping(ctx, exe, chunk)
+            ctx.log('  mapping correspondence done')
             jobs = []
             for i, p in enumerate(chunk):
                 if p.src.num_blocks + p.dst.num_blocks > 30000 and (lo + i) % 3: continue
@@ -350,6 +350,7 @@ def run(ctx):
                 jobs.append((p, case))
                 if O.atm_finding_class(p.src, p.dst): jobs.append((p, dict(case, explicit=True)))
             correspond_incon(ctx, exe, jobs)
+            ctx.log('  incon correspondence done')
             gjobs = []
             for i, p in enumerate(chunk):
                 if p.src.num_blocks > 4000 or p.dst.num_blocks > 4000 or O.atm_finding_class(p.src, p.dst): continue
@@ -375,7 +376,7 @@ def replay(ctx, data):
     before = lambda: len(ctx.new_failures) + len(ctx.findings_seen) + sum(d.get('failures', 0) for d in ctx.oracle.values())
     n0 = before()
     if kind == 'generators':
-        g1 = G.build_geo(inp['geo'], ctx.repo); g2 = G.build_geo(inp['geo'], ctx.repo)
+        g1 = G.build_geo(inp['geo'], ctx.repo); g2 = O.identical_copy(inp['geo'], g1, ctx.repo)
         O.check_generators_identity(ctx, inp, g1, g2)
     else:
         src = G.build_geo(inp['src'], ctx.repo); dst = G.build_geo(inp['dst'], ctx.repo)
